@@ -117,10 +117,25 @@ def chain_model(r, depth, maxvol=6):
 HP_COUNT = [1, 2, 2, 3, 2, 4]
 
 
-def optimizer(r, kind=None):
+def float_neg(w):
+    """w < 0 as a float: sign set, not -0, not NaN (what Optimizer::set_configs rejects)"""
+    return 0x80000000 < w <= 0xff800000
+
+
+def nonneg_word(r):
+    while True:
+        w = word(r)
+        if not float_neg(w):
+            return w
+
+
+def optimizer(r, kind=None, valid=True):
+    """valid: lr_scale / l2_strength / clip_threshold not negative (the setters and, since
+    82dd99a, set_configs reject negative values; NaN and -0 pass)"""
     k = r.randrange(6) if kind is None else kind
+    base = [nonneg_word(r) for _ in range(3)] if valid else [word(r) for _ in range(3)]
     return "%d:%d:%d:%d:%d:%s" % (k, r.choice([0, 1, 7, 65535, 65536, P32 - 1, r.getrandbits(32)]),
-                                  word(r), word(r), word(r), ",".join(str(word(r)) for _ in range(HP_COUNT[k])))
+                                  base[0], base[1], base[2], ",".join(str(word(r)) for _ in range(HP_COUNT[k])))
 
 
 def fresh_like(kind, desc_toks):
